@@ -23,6 +23,11 @@ for c in range(16):
     QUERIES.append(q("nonce_fn_layout_c%02d" % c, "harness_nonce_fn", "secp256k1_nonce_function_musig == BIP-327 NonceGen hash layout, presence class %d (bit0: no sk, bit1: no aggpk, bit2: no msg, bit3: no extra_in), all byte values" % c, defs=["NF_COMBO=%d" % c]))
 for c in range(16):
     QUERIES.append(q("nonce_process_c%02d" % c, "harness_nonce_process", "nonce_process from an arbitrary valid cache, class %d (bit0 adaptor absent, bit1 R_1' infinite, bit2 R_2 infinite, bit3 R_1'+bR_2 infinite => G): b, R, e, tweak term as in BIP-327 GetSessionValues" % c, defs=["PCLASS=%d" % c]))
+_t = Query("t_signphase_order13", "T/h_t.c", "harness_musig_signphase", defs=["T_MUSIG"], unwind=140, timeout=3000, mem_gb=8, allow=["secp256k1_scalar_inverse", "secp256k1_scalar_inverse_var"],
+           desc="engine T (order-13 subgroup, table model generated and validated from the real code at check time): from an ARBITRARY valid key-aggregation cache, an ARBITRARY session and any live secret nonce bound to the signer's key, partial_sign succeeds and partial_sig_verify accepts the result for the signer's own key and public nonce",
+           bounds="group order 13; one symbolic key byte; all cache / session / nonce values")
+_t.gen_table = 13
+QUERIES.append(_t)
 LEVEL_TEXT = ("Bounded model checking of the real MuSig2 module at real width against a reference written from BIP-327: every API function is run from arbitrary valid objects with curve results as free recorded points, "
               "scalar multiplication and the SHA-256 compression function uninterpreted, so hash layouts, coefficients, sign conventions, accumulators, infinity handling and failure sets are decided for all inputs.")
 ASSUMPTIONS = ["curve layer (ecmult, ecmult_gen, ecmult_multi_var, gej_add_*) returns free points: that honest sessions yield valid BIP-340 signatures then follows from the BIP-327 correctness argument over the group law, which is not encoded",
@@ -30,6 +35,6 @@ ASSUMPTIONS = ["curve layer (ecmult, ecmult_gen, ecmult_multi_var, gej_add_*) re
                "scalar multiplication: commutative uninterpreted function exact on 0 and 1; SHA-256 compression: uninterpreted function shared with the reference; tag midstates are C05's subject",
                "signer counts 1..3 (thorough 4) for aggregation functions; per-signer functions are independent of the signer count", "64-bit limbs only"]
 MANIFEST_ENTRY = {
-    "text": "Bounded model checking of the real MuSig2 code at real width against a reference written from BIP-327 (uninterpreted compression function and scalar product shared with the reference, free recorded curve results): nonce hash layout for all optional-argument combinations, all 2^64 counters of nonce_gen_counter, key aggregation for 1..3 keys incl. duplicates and second-key coefficient, one-step ApplyTweak from an arbitrary cache, nonce aggregation with infinite components, session values (b, R or G, e, tweak term, adaptor), partial-sign formula, partial-verify equation, aggregation, adapt/extract inverse.",
+    "text": "Engine T: in the order-13 group, from an arbitrary valid cache, an arbitrary session and any live nonce, partial_sign succeeds and partial_sig_verify accepts the result for the signer's own key and nonce. Bounded model checking of the real MuSig2 code at real width against a reference written from BIP-327 (uninterpreted compression function and scalar product shared with the reference, free recorded curve results): nonce hash layout for all optional-argument combinations, all 2^64 counters of nonce_gen_counter, key aggregation for 1..3 keys incl. duplicates and second-key coefficient, one-step ApplyTweak from an arbitrary cache, nonce aggregation with infinite components, session values (b, R or G, e, tweak term, adaptor), partial-sign formula, partial-verify equation, aggregation, adapt/extract inverse.",
     "note": "Not covered: the group-law step from these per-function equalities to 'the aggregate verifies under BIP-340' (needs C05's not-encodable clauses; the BIP-327 algebra is trusted reasoning), 4..16 signers in the aggregation loops (same loop body), partial signatures failing for other keys beyond the verification equation. Trusted: CBMC/kissat, stubs, reference in harness/C12.",
 }
